@@ -520,7 +520,14 @@ func runWalk(res *mbt.Result, w *World, me int, walk *xWalk, cmpFrom int, myBid 
 				sort.Strings(p)
 				want = append(want, fmt.Sprintf("v%d/t%d/h%d/r%d/%v", e.I, e.Type, e.H, e.R, p))
 			}
-			evs, _ := nd.EvPool.PendingEvidence(1 << 30)
+			// everything the pool holds (its gossip list): PendingEvidence only offers what every node can verify NOW,
+			// which excludes evidence of the height being decided
+			var evs []types.Evidence
+			for el := nd.EvPool.EvidenceFront(); el != nil; el = el.Next() {
+				if e, ok := el.Value.(types.Evidence); ok {
+					evs = append(evs, e)
+				}
+			}
 			for _, e := range evs {
 				if dv, ok := e.(*types.DuplicateVoteEvidence); ok {
 					p := []string{d.nameOf(dv.VoteA.Height, dv.VoteA.BlockID.Hash), d.nameOf(dv.VoteB.Height, dv.VoteB.BlockID.Hash)}
